@@ -308,6 +308,8 @@ FilesSmall == { <<>>, <<"f", ".", "txt">>, <<"d", "/", "f", ".", "txt">>, <<"d",
 MethodsAll == {"copy", "link", "ref", "copyout", "extract", "output", "loopref", "loopoutput"}
 MethodsSmall == {"ref", "copy", "output", "loopoutput"}
 MethodsTwo == {"ref", "copyout"}
+MethodsOne == {"ref"}
+FilesTwo == { <<>>, <<"d", "/", "f", ".", "txt">> }
 
 KeySets == << {}, {<<"a">>}, {<<"a", "/", "d">>}, {<<"a", "/", "d">>, <<"c">>, <<"data", "/", "x">>} >>
 DepSets == << {}, {<<"name", ".", "ext">>}, {<<"/", "abs", "/", "name", ".", "ext">>, <<"pkg">>, <<"n", ".", "m", ".", "ext">>} >>
